@@ -375,3 +375,92 @@ def q_keywords():
                              replay={"func": "vf.harness.lexreplay:replay_keyword", "args": {"w": kw, "token": want[kw]}})
     return SmtResult(status="unsat", detail="keywords and only keywords are remapped", queries=q, solver_time_s=round(total, 3),
                      samples=[{"keywords": sorted(want)}])
+
+
+# ---------------------------------------------------------------------------------------
+# token classes: what the live lexer produces as exactly one token T == the reference class of T
+
+def reference_classes():
+    """Token classes written from the language description (unbounded length)."""
+    alpha = z3.Union(z3.Range("a", "z"), z3.Range("A", "Z"), S("_"))
+    alnum = z3.Union(alpha, D)
+    ident_tail = z3.Star(z3.Concat(z3.Option(S(".")), alnum))
+    ident = z3.Concat(alpha, ident_tail)
+    sign = z3.Option(z3.Union(S("+"), S("-")))
+    integer = z3.Concat(sign, z3.Plus(D))
+    # a number has an integer part, a fraction and an optional exponent ('.5' is not specified)
+    number = z3.Concat(sign, z3.Plus(D), S("."), z3.Plus(D), z3.Option(z3.Concat(z3.Union(S("e"), S("E")), sign, z3.Plus(D))))
+    dotident = z3.Concat(S("."), z3.Option(ident))
+    binint = z3.Concat(S("'"), z3.Plus(z3.Union(S("0"), S("1"))), S("'"))
+    return {"IDENTIFIER": ident, "INT": integer, "NUMBER": number, "DOTIDENTIFIER": dotident, "BININT": binint, "NL": z3.Plus(S("\n"))}
+
+
+def q_classes():
+    """For every token class T: every string of the reference class is lexed by the live rules as exactly
+    one token T (first-match over the ordered rules, not running into a following delimiter), and every
+    string the live rule T matches on its own (no earlier rule matching a prefix) belongs to the reference
+    class -- numbers without integer part excepted (not specified)."""
+    try:
+        rules, literals, ignore, remap = _rules_re()
+    except Untranslatable as ex:
+        return SmtResult(status="unknown", detail=str(ex))
+    ref = reference_classes()
+    delims = {"IDENTIFIER": [" ", "\n", "[", "]", ";"], "INT": [" ", "\n", "]", ":"], "NUMBER": [" ", "\n", ";"], "DOTIDENTIFIER": [" "], "BININT": [":", " "], "NL": [" ", "a"]}
+    s = z3.String("s")
+    total = 0.0
+    q = 0
+    byname = {n: r for n, p, r in rules}
+    nodot = z3.Complement(z3.Concat(z3.Option(z3.Union(S("+"), S("-"))), S("."), SIGMA_STAR))
+    for tok, R_ in ref.items():
+        if tok not in byname:
+            return SmtResult(status="sat", detail=f"lexer has no rule {tok}", replay={"func": "vf.harness.lexreplay:replay_token_class", "args": {"w": "a", "token": tok}})
+        # (1) reference class  =>  exactly one token tok
+        bad = single_token_constraints(s, tok, rules, delims[tok])
+        for alt in bad:
+            r, sol, dt = _check([z3.InRe(s, R_), alt])
+            total += dt
+            q += 1
+            if r == "sat":
+                w = sol.model().eval(s, model_completion=True).as_string()
+                return SmtResult(status="sat", detail=f"{w!r} belongs to the class {tok} but is not lexed as one {tok} token", queries=q, solver_time_s=round(total, 3),
+                                 replay={"func": "vf.harness.lexreplay:replay_token_class", "args": {"w": w, "token": tok}})
+            if r != "unsat":
+                return SmtResult(status="unknown", detail=f"solver {r} ({tok})", queries=q, solver_time_s=round(total, 3))
+        # (2) the live rule, when it is the first to match, only produces strings of the class
+        earlier = []
+        for name, pat, rr in rules:
+            if name == tok:
+                break
+            earlier.append(z3.Not(z3.InRe(s, z3.Concat(rr, SIGMA_STAR))))
+        cons = [z3.InRe(s, byname[tok]), z3.Not(z3.InRe(s, R_))] + earlier
+        if tok == "NUMBER":
+            cons.append(z3.InRe(s, nodot))
+        r, sol, dt = _check(cons)
+        total += dt
+        q += 1
+        if r == "sat":
+            w = sol.model().eval(s, model_completion=True).as_string()
+            return SmtResult(status="sat", detail=f"the lexer makes a {tok} token of {w!r}, which is not in the class", queries=q, solver_time_s=round(total, 3),
+                             replay={"func": "vf.harness.lexreplay:replay_token_class", "args": {"w": w, "token": None}})
+        if r != "unsat":
+            return SmtResult(status="unknown", detail=f"solver {r} ({tok} converse)", queries=q, solver_time_s=round(total, 3))
+    # literals: each is a single character no rule starts with... (a rule matching a literal would shadow it)
+    for lit in sorted(literals):
+        for name, pat, rr in rules:
+            if name.startswith("ignore_"):
+                continue
+            r, sol, dt = _check([z3.InRe(z3.StringVal(lit), z3.Concat(rr, SIGMA_STAR)) if False else z3.InRe(s, rr), z3.PrefixOf(z3.StringVal(lit), s), z3.Length(s) == 1])
+            total += dt
+            q += 1
+            if r == "sat":
+                return SmtResult(status="sat", detail=f"rule {name} matches the literal {lit!r}", queries=q, solver_time_s=round(total, 3),
+                                 replay={"func": "vf.harness.lexreplay:replay_token_class", "args": {"w": lit, "token": lit}})
+    want_literals = set("<>|{};[],*:")
+    if literals != want_literals:
+        w = sorted(literals ^ want_literals)[0]
+        return SmtResult(status="sat", detail=f"literal set differs: {sorted(literals ^ want_literals)}", queries=q,
+                         replay={"func": "vf.harness.lexreplay:replay_token_class", "args": {"w": w, "token": w}})
+    if set(ignore) != {" ", "\t"}:
+        return SmtResult(status="sat", detail=f"ignored characters {ignore!r}", queries=q, replay={"func": "vf.harness.lexreplay:replay_token_class", "args": {"w": "a\tb", "token": None}})
+    return SmtResult(status="unsat", detail="every token class of the live lexer equals its reference class (unbounded length); literals and ignored characters as specified",
+                     queries=q, solver_time_s=round(total, 3), samples=[{"classes": sorted(ref), "literals": sorted(literals), "ignore": ignore}])
